@@ -3,8 +3,11 @@ import AcraModel.Proxy.PlacementLemmas
 import AcraModel.Proxy.MySQLLemmas
 import AcraModel.Envelope.SafeCompatSame
 import AcraModel.Envelope.ExampleOps
+import AcraModel.Proxy.LitCoderLemmas
+import AcraModel.Proxy.SqlPrepared
 import AcraModel.Generated.Wiring
 import AcraModel.Generated.StmtForms
+import AcraModel.Generated.PgCoder
 /-!
 # C04 — the SQL proxy stores only protected forms and restores originals on read
 
@@ -66,6 +69,54 @@ theorem fact_update_values_walk :
     StmtForms.pgUpdateValuesWalks = ["update.TargetList"] ∧ StmtForms.mysqlUpdateValuesWalks = ["update.Exprs"] ∧
     StmtForms.pgUpdateValuesCalls = ["updatePlaceholderMap", "encryptValuesWithPlaceholders"] ∧
     StmtForms.mysqlUpdateValuesCalls = ["updatePlaceholderMap", "encryptValuesWithPlaceholders"] := by decide
+
+/-- **Which slice travels next to the error.** Every return of `utils.DecodeEscaped`: next to BOTH errors (invalid
+hex after `\x`, `ErrDecodeOctalString`) the function hands back its INPUT (`data`), never `nil` – the PostgreSQL
+literal coder uses the slice returned next to `ErrDecodeOctalString` as the value to encrypt ("not an escaped
+bytea: take the string as it is"). The model's `decodeEscapedGo` reads the returned variable from this table. -/
+theorem fact_decodeEscaped_returns : PgCoder.decodeEscapedReturns = escReturnsExpected := by decide
+
+/-- The string-literal branch of `PgQueryDBDataCoder.Decode`, statement by statement, as `LitCoder.pgDecodeSval`
+has it: a setting with a data type other than bytea returns the literal's text; otherwise `DecodeEscaped`, an
+error other than `ErrDecodeOctalString` is returned when it is a hex error, and – with no error or with
+`ErrDecodeOctalString` – the slice `DecodeEscaped` returned (`binValue`) is the result. -/
+theorem fact_pg_decode_sval :
+    PgCoder.pgDecodeSval =
+      ["assign typeID:=setting.GetDBDataTypeID()", "if typeID!=0&&typeID!=pgtype.ByteaOID", "return []byte(sval.GetSval()),nil", "end",
+       "assign binValue,err:=utils.DecodeEscaped([]byte(sval.GetSval()))", "if err!=nil&&err!=utils.ErrDecodeOctalString",
+       "if assign _,ok:=err.(hex.InvalidByteError); err==hex.ErrLength||ok", "return nil,err",
+       "else if err==utils.ErrDecodeOctalString", "return nil,err", "end", "return []byte(sval.GetSval()),nil", "end",
+       "return binValue,nil"] := by decide
+
+/-- `UpdateExpressionValue` of both front ends, as `encCell` / `encCellMy` have it: decode (an error other than
+`ErrDecodeOctalString` / unsupported expression is passed on – the rewrite of the statement is abandoned), run the
+chain on the decoded value (an error is passed on), leave the literal alone when the chain returned the same
+bytes, otherwise encode and replace. -/
+theorem fact_update_expression_value :
+    PgCoder.pgUpdateExpressionValue =
+      ["if expr.GetSval()!=nil||expr.GetVal()!=nil||expr.GetFval()!=nil", "assign rawData,err:=coder.Decode(expr,setting)",
+       "if err!=nil", "if err==utils.ErrDecodeOctalString||err==base.ErrUnsupportedExpression", "return ErrUpdateLeaveDataUnchanged", "end",
+       "return err", "end", "assign newData,err:=updateFunc(ctx,rawData)", "if err!=nil", "return err", "end",
+       "if len(newData)==len(rawData)&&bytes.Equal(newData,rawData)", "return ErrUpdateLeaveDataUnchanged", "end",
+       "if assign err=coder.Encode(expr,newData,setting); err!=nil", "return err", "end", "end", "return nil"] ∧
+    PgCoder.myUpdateLiteralKinds = "sqlparser.StrVal,sqlparser.HexVal,sqlparser.PgEscapeString,sqlparser.IntVal,sqlparser.HexNum" ∧
+    PgCoder.myUpdateLiteralCase =
+      ["assign rawData,err:=coder.Decode(val,setting)", "if err!=nil",
+       "if err==utils.ErrDecodeOctalString||err==base.ErrUnsupportedExpression", "return ErrUpdateLeaveDataUnchanged", "end", "return err", "end",
+       "assign newData,err:=updateFunc(ctx,rawData)", "if err!=nil", "return err", "end",
+       "if len(newData)==len(rawData)&&bytes.Equal(newData,rawData)", "return ErrUpdateLeaveDataUnchanged", "end",
+       "assign coded,err:=coder.Encode(expr,newData,setting)", "if err!=nil", "return err", "end", "assign val.Val=coded"] := by decide
+
+/-- `mysql.DBDataCoder.Decode`, as `LitCoder.myDecode` has it: integer and string literals are returned as they
+are, `X'…'` is hex-decoded (an error is returned for bad hex), `0x…` likewise after its prefix. -/
+theorem fact_my_decode :
+    PgCoder.myDecode =
+      ["typeswitch assign val:=expr.(type)", "case *sqlparser.SQLVal", "switch val.Type", "case sqlparser.IntVal,sqlparser.StrVal",
+       "return val.Val,nil", "case sqlparser.HexVal", "assign binValue:=make([]byte,hex.DecodedLen(len(val.Val)))",
+       "assign _,err:=hex.Decode(binValue,val.Val)", "if err!=nil", "return nil,err", "end", "return binValue,nil",
+       "case sqlparser.HexNum", "if !bytes.HasPrefix(val.Val,hexNumPrefix)", "return val.Val,nil", "end",
+       "assign binValue:=make([]byte,hex.DecodedLen(len(val.Val)-2))", "assign _,err:=hex.Decode(binValue,val.Val[2:])",
+       "if err!=nil", "return nil,err", "end", "return binValue,nil", "end", "end", "return nil,base.ErrUnsupportedExpression"] := by decide
 
 /-! ## placement: which cells change (for every cell transformer) -/
 
@@ -200,12 +251,36 @@ theorem uncovered_identity_bind (c : CryptoOps) (kv : KeyView) (sch : Schema) (s
 
 /-! ## pipeline: what happens to a value -/
 
-/-- **write_never_plain (literal).** A string literal written into a protected column – whose decoded value
+/-- **What the chain receives for a literal – for EVERY literal text.** `PgQueryDBDataCoder.Decode` of a string
+literal `lit` of a protected column returns an error exactly when the column has no text data type and `lit` is
+`\x` followed by invalid hex; in every other case it hands the chain a value `raw` that is either the literal's
+text itself or its bytea decoding, and `raw` is empty only when the literal denotes the empty byte string (`''`,
+or `'\x'`). In particular a text that is not valid bytea escape text – a line break, a tab, a control
+character, a backslash not followed by a backslash or three octal digits, `C:\keys\master.pem` – reaches the
+chain as it is, never as an empty value that the chain would skip. -/
+theorem lit_value_total (s : ColSetting) (lit : Bytes) :
+    (decodeLit s lit = none ↔ s.textTyped = false ∧ ∃ h, lit = 92 :: 120 :: h ∧ Wire.Bytea.hexDecode h = none) ∧
+    (∀ raw, decodeLit s lit = some raw →
+      (raw = lit ∨ Wire.Bytea.decodeEscaped lit = .ok raw) ∧
+      (raw = [] → lit = [] ∨ (s.textTyped = false ∧ lit = [92, 120]))) :=
+  ⟨pgDecodeSval_none_iff fact_decodeEscaped_returns s.textTyped lit,
+   fun raw h => pgDecodeSval_some fact_decodeEscaped_returns s.textTyped lit raw h⟩
+
+/-- **What the MySQL chain receives for a literal.** String and integer literals reach the chain as their text,
+`X'…'` as the decoded bytes (an error – statement forwarded as received – only for bad hex), and the value is
+empty only for an empty literal (`''`, `X''`, `0x`). -/
+theorem lit_value_total_my (k : MyLit) (v : Bytes) :
+    (k = .str ∨ k = .int → myDecode k v = some v) ∧
+    (k = .hexVal → myDecode k v = Wire.Bytea.hexDecode v) ∧
+    (∀ raw, myDecode k v = some raw → raw = [] → v = [] ∨ (k = .hexNum ∧ v = hexNumPrefix)) :=
+  myDecode_spec k v
+
+/-- **write_never_plain (literal, its decoded value).** A string literal written into a protected column – whose decoded value
 `raw` is not empty and not already protected – is replaced by the text encoding of exactly
 `protect … raw`, a value different from `raw`; the random stream advances by what the envelope consumed.
 Together with `rewrite_frame_insert` / `rewrite_frame_update`: every protected cell of the forwarded
 statement is `encodeText (protect …)` of the client's cell and every other cell is identical. -/
-theorem write_never_plain (c : CryptoOps) (kvW kvR : KeyView) (s : ColSetting) (b raw rnd p : Bytes)
+theorem write_never_plain_value (c : CryptoOps) (kvW kvR : KeyView) (s : ColSetting) (b raw rnd p : Bytes)
     (hd : decodeLit s b = some raw) (hne : raw ≠ [])
     (h : RoundTripHyps c s.kind kvW kvR raw rnd p)
     (hnm : matchKind s.kind raw = false) (hnr : registryMatch raw = false)
@@ -215,6 +290,64 @@ theorem write_never_plain (c : CryptoOps) (kvW kvR : KeyView) (s : ColSetting) (
   have hemp : raw.isEmpty = false := by cases raw <;> simp_all
   have hbeq : (p == raw) = false := by simpa using hpr
   simp [encCell, hd, hemp, hw, hbeq, chainUsed, passthrough, hnm, hnr]
+
+/-- **write_never_plain (literal) – for every literal text.** Let `b` be ANY byte string standing as a string
+literal in a protected column, other than the two shapes named by `lit_value_total`: `\x` + invalid hex in a
+column without text type (the coder returns an error: see `fail_open_*`), and a literal that denotes the empty
+byte string (nothing to protect). Then the coder hands the chain a NON-EMPTY value `raw` – the bytea decoding of
+`b`, or `b` itself when `b` is not valid escape text – and, whenever the envelope can be built for `raw`, the
+forwarded literal is the text encoding of exactly `protect … raw`, a value different from `raw`. -/
+theorem write_never_plain (c : CryptoOps) (kvW kvR : KeyView) (s : ColSetting) (b rnd : Bytes)
+    (hx : ¬ (s.textTyped = false ∧ ∃ h, b = 92 :: 120 :: h ∧ Wire.Bytea.hexDecode h = none))
+    (he : b ≠ [] ∧ ¬ (s.textTyped = false ∧ b = [92, 120])) :
+    ∃ raw, decodeLit s b = some raw ∧ raw ≠ [] ∧ (raw = b ∨ Wire.Bytea.decodeEscaped b = .ok raw) ∧
+      ∀ p, RoundTripHyps c s.kind kvW kvR raw rnd p → matchKind s.kind raw = false → registryMatch raw = false →
+        protect c kvW s.kind raw rnd = .ok p → p ≠ raw →
+        encCell c kvW s (.lit b) rnd = some (.lit (encodeText s p), rnd.drop (rndUsed s.kind)) := by
+  obtain ⟨hnone, hsome⟩ := lit_value_total s b
+  cases hd : decodeLit s b with
+  | none => exact absurd (hnone.1 hd) hx
+  | some raw =>
+    obtain ⟨hor, hemp⟩ := hsome raw hd
+    have hne : raw ≠ [] := by
+      intro h
+      cases hemp h with
+      | inl h => exact he.1 h
+      | inr h => exact he.2 h
+    exact ⟨raw, rfl, hne, hor, fun p h hnm hnr hp hpr => write_never_plain_value c kvW kvR s b raw rnd p hd hne h hnm hnr hp hpr⟩
+
+/-- **Fail-open, stated as what the code does (1): which literals make the rewrite fail.** The transformer of a
+protected literal fails (`none`) exactly when the coder returns an error (`\x` + invalid hex, no text type) or
+the encryption chain fails on the non-empty decoded value (no usable key, …). -/
+theorem fail_open_cell (c : CryptoOps) (kv : KeyView) (s : ColSetting) (b rnd : Bytes) :
+    encCell c kv s (.lit b) rnd = none ↔
+      decodeLit s b = none ∨ ∃ raw, decodeLit s b = some raw ∧ raw ≠ [] ∧ ∀ nd, writeChain c kv s raw rnd ≠ .ok nd := by
+  cases hd : decodeLit s b with
+  | none => simp [encCell, hd]
+  | some raw =>
+    by_cases hr : raw = []
+    · subst hr; simp [encCell, hd]
+    · have hemp : raw.isEmpty = false := by cases raw <;> simp_all
+      cases hw : writeChain c kv s raw rnd with
+      | ok nd =>
+        have h1 : encCell c kv s (.lit b) rnd ≠ none := by
+          simp only [encCell, hd, hemp, hw]
+          repeat' split
+          all_goals simp
+        simp [h1, hr, hw]
+      | err => simp [encCell, hd, hemp, hw, hr]
+      | panic => simp [encCell, hd, hemp, hw, hr]
+
+/-- **Fail-open, stated as what the code does (2): a failed rewrite forwards the statement as received.** When
+the transformer fails on ANY protected cell of an INSERT / UPDATE, `OnQuery` returns the error, `handleQueryPacket`
+only logs it and the statement goes to the database exactly as the client sent it – every protected literal in
+it, also those the transformer had handled before the failing one, in clear. -/
+theorem fail_open_statement {σ} (f : Xf σ) (sch : Schema) (st : σ) :
+    (∀ i, xfInsertStmt f sch i st = none → xfStmt f sch (.insert i) st = (.insert i, st)) ∧
+    (∀ u, xfUpdateStmt f sch u st = none → xfStmt f sch (.update u) st = (.update u, st)) := by
+  constructor
+  · intro i h; simp [xfStmt, h]
+  · intro u h; simp [xfStmt, h]
 
 /-- For columns that are not text-typed the forwarded literal is the hex bytea literal of the container. -/
 theorem write_never_plain_hex (s : ColSetting) (p : Bytes) (h : s.dtype ≠ .str) : encodeText s p = pgHex p := by
@@ -553,7 +686,184 @@ theorem execute_resolves {α β : Type} (st : PState α β) (n portal : Name) (s
 theorem censored_not_pending {α β : Type} (st : PState α β) (s : α) :
     clStep st (.query s true) = some (st, false) := rfl
 
+/-! ## SQL-level prepared statements (PREPARE / EXECUTE / DEALLOCATE over the simple protocol) -/
+
+/-- **What the row handler looks at.** `PgProxy.handleQueryDataPacket` resolves the statement of a DataRow as
+`rowResolve` has it – the pending query text is parsed; if it is an `EXECUTE` the statement registered under
+that name is fetched from `proxy.registry` NOW; the settings are extracted from the result – and refers to nothing
+of the proxy but its protocol state (the queue), the registry, the settings extractor and the per-column chain;
+`PgProxy` has no field in which settings of an earlier row or statement could be kept. -/
+theorem fact_row_resolution :
+    PgCoder.pgRowResolution =
+      ["assign sqlQuery:=pendingPacket.(queryPacket).GetSQLQuery()", "assign sqlOnQuery:=postgresql.NewOnQueryObjectFromQuery(sqlQuery)",
+       "assign sqlStmt,err:=postgresql.ParseQuery(sqlQuery)", "if err!=nil", "return err", "end",
+       "if len(sqlStmt.Stmts)>0&&sqlStmt.Stmts[0].Stmt.GetExecuteStmt()!=nil", "var executeQuery=sqlStmt.Stmts[0].Stmt.GetExecuteStmt()",
+       "assign storedStatement,err:=proxy.registry.StatementByName(executeQuery.GetName())", "if err!=nil", "return err", "end",
+       "assign sqlOnQuery=postgresql.NewOnQueryObjectFromStatement(storedStatement.Query())", "end",
+       "assign encryptionSettings,err:=proxy.settingExtractor.GetEncryptorSettingsForQuery(sqlOnQuery)", "if err!=nil",
+       "assign encryptionSettings=nil", "end"] ∧
+    PgCoder.pgRowHandlerRefs = ["onColumnDecryption", "protocolState", "registry", "settingExtractor"] ∧
+    PgCoder.pgProxyFields = ["session", "clientConnection", "dbConnection", "stopClient", "ClientStopResponse", "ctx",
+      "queryObserverManager", "censor", "decryptionObserver", "protocolState", "setting", "clientIDObserverManager", "parser",
+      "settingExtractor", "registry"] := by decide
+
+/-- **How the SQL-level statements are registered**, as `sqlObserve` has it: `PREPARE` looks the name up first and
+refuses (`ErrStatementAlreadyInRegistry`) when it is found, otherwise adds the statement and runs the inner
+statement through the query observers; `EXECUTE` only looks the name up; `DEALLOCATE ALL` (empty name) deletes
+the named statements, `DEALLOCATE n` looks the name up and deletes it. -/
+theorem fact_sql_prepared_registry :
+    PgCoder.sqlPrepareCalls = ["registry.StatementByName", "registry.AddStatement", "queryObserver.OnQuery"] ∧
+    PgCoder.sqlPrepare.take 5 =
+      ["var prepareQuery=parseResult.Stmts[0].Stmt.GetPrepareStmt()", "var preparedStatementName=prepareQuery.GetName()",
+       "if assign _,err:=encryptor.registry.StatementByName(preparedStatementName); err==nil",
+       "return nil,false,ErrStatementAlreadyInRegistry", "end"] ∧
+    PgCoder.sqlExecuteCalls = ["registry.StatementByName", "queryObserver.OnBind"] ∧
+    PgCoder.sqlDeallocate =
+      ["var preparedStatementName=parseResult.Stmts[0].Stmt.GetDeallocateStmt().GetName()", "if preparedStatementName==\"\"",
+       "return nil,false,encryptor.registry.DeleteNamedStatements()", "end",
+       "if assign _,err:=encryptor.registry.StatementByName(preparedStatementName); err!=nil",
+       "return nil,false,ErrStatementNotPresentInRegistry", "end",
+       "return nil,false,encryptor.registry.DeleteStatement(preparedStatementName)"] := by decide
+
+/-- **The observer on the registry is `regEff` on what the row handler can see of it.** After
+`PreparedStatementsQuery.OnQuery` the name ↦ statement table the row handler reads (`StatementByName`) is: for
+`PREPARE n AS s` – `n ↦ s` added unless `n` was bound (then nothing changes: no overwrite); for `DEALLOCATE n` –
+`n` removed; for `DEALLOCATE ALL` – every named statement removed; unchanged otherwise. -/
+theorem sql_observe_registry {α β : Type} (r : Registry α β) (c : SqlCmd α) :
+    (sqlObserve r c).1.view = regEff r.view c := sqlObserve_view r c
+
+/-- **Row processing is a function of (registry, pending statement) only.** The statement whose settings a DataRow
+is processed with depends on nothing but the name ↦ statement table the registry shows and the entry at the front
+of the queue – two proxy states that agree on these resolve every row alike, whatever rows or statements they
+have processed before (the model has no memo; `fact_row_resolution` pins that the code has no place for one). -/
+theorem row_resolution_local {α β : Type} (r r' : Registry α β) (e : Entry (SSrc α β)) (q q' : List (Entry (SSrc α β)))
+    (h : r.view = r'.view) : rowResolve r (e :: q) = rowResolve r' (e :: q') := by
+  cases e with
+  | sync => rfl
+  | query s =>
+    cases s with
+    | extended s b => rfl
+    | sql c => simp only [rowResolve, h]
+
+/-- **sql_prepare_pairs.** In every run of the joint system proxy + PostgreSQL-conforming database with SQL-level
+prepared statements – `PREPARE` / `DEALLOCATE` sent when nothing is outstanding, `EXECUTE`, other statements and
+extended-protocol requests pipelined in any way, errors, Sync, ReadyForQuery – each DataRow is processed with the
+settings of exactly the statement the database is answering: for `EXECUTE n` the statement `n` is bound to AT THAT
+MOMENT in the database (names deallocated and prepared again with another statement included). -/
+theorem sql_prepare_pairs {α : Type} (evs : List (SJEv α)) (s : SJoint α) (obs : List (α × RowRes α))
+    (h : sjrun {} evs = some (s, obs)) : ∀ st x, (st, x) ∈ obs → x = .stmt st :=
+  (sinv_run evs {} s obs sinv_init h).2
+
+/-- **The two tables agree whenever nothing is outstanding**: at every quiescent point the proxy's registry shows
+exactly the prepared statements the database has. -/
+theorem sql_registry_in_step {α : Type} (evs : List (SJEv α)) (s : SJoint α) (obs : List (α × RowRes α))
+    (h : sjrun {} evs = some (s, obs)) (hd : s.j.d = []) : s.preg = s.dreg := by
+  have := (sinv_run evs {} s obs sinv_init h).1.reg
+  rw [this, hd]
+  rfl
+
+/-- **Pipelining a re-definition behind an EXECUTE is outside the theorem** (why `sjstep` has the client rule):
+the proxy resolves `EXECUTE q` when the ROW arrives. If the client sends `PREPARE q AS 1; EXECUTE q; DEALLOCATE q;
+PREPARE q AS 2` without waiting, then at the moment the database – which has completed only the first PREPARE –
+returns the rows of `EXECUTE q` (statement 1), the proxy's registry already binds `q` to statement 2. -/
+theorem overtake_counterexample :
+    let evs : List (SClEv Nat Nat) := [.query (.prepare "q" 1) false, .query (.execute "q") false,
+      .query (.deallocate "q") false, .query (.prepare "q" 2) false]
+    let st := evs.foldl (fun st ev => match sclStep st ev with | some (st', _) => st' | none => st) ({} : SState Nat Nat)
+    -- queue after the first PREPARE has been answered (CommandComplete, ReadyForQuery)
+    rowResolve st.reg (dbStep (dbStep st.pending .done) .ready) = .stmt 2 ∧
+    resolveCmd (regEff (fun _ => (none : Option Nat)) (.prepare "q" 1)) (.execute "q") = .stmt 1 := by decide
+
+/-- **A PREPARE the database rejects leaves the name bound in the proxy** (known finding
+`sql-prepare-rejected-name-sticky`, why `sjstep` lets a PREPARE of a free name fail never): the statement is
+registered when it is SENT. If the database rejects `PREPARE q AS 1` (unknown table …) and then accepts
+`PREPARE q AS 2`, the proxy refuses the second one as "already stored" and processes the rows of `EXECUTE q`
+(statement 2 in the database) with the settings of statement 1. -/
+theorem rejected_prepare_counterexample :
+    let evs : List (SClEv Nat Nat) := [.query (.prepare "q" 1) false, .query (.prepare "q" 2) false, .query (.execute "q") false]
+    let st := evs.foldl (fun st ev => match sclStep st ev with | some (st', _) => st' | none => st) ({} : SState Nat Nat)
+    -- the database: first PREPARE failed (table unchanged), second completed
+    let dreg := regEff (fun _ => (none : Option Nat)) (.prepare "q" 2)
+    rowResolve st.reg (st.pending.drop 4) = .stmt 1 ∧ resolveCmd dreg (.execute "q") = .stmt 2 := by decide
+
 /-! ## non-vacuity: the hypotheses are satisfiable, the theorems say something -/
+
+/-- `lit_value_total` / `write_never_plain` on a literal that is NOT bytea escape text – `C:\k` followed by a line
+break: the hypotheses of `write_never_plain` hold for it, `DecodeEscaped` fails with `ErrDecodeOctalString`, and
+the coder hands the chain the five bytes of the text itself (so the theorem's conclusion is about a real case). -/
+example :
+    let s : ColSetting := { kind := .block }
+    let b : Bytes := [67, 58, 92, 107, 10]
+    (¬ (s.textTyped = false ∧ ∃ h, b = 92 :: 120 :: h ∧ Wire.Bytea.hexDecode h = none)) ∧
+    (b ≠ [] ∧ ¬ (s.textTyped = false ∧ b = [92, 120])) ∧
+    Wire.Bytea.decodeEscaped b = .error .octal ∧ decodeLit s b = some b ∧
+    (∀ (c : CryptoOps) (kvW kvR : KeyView) (rnd : Bytes), ∃ raw, decodeLit s b = some raw ∧ raw ≠ []) := by
+  intro s b
+  have hoct : Wire.Bytea.decodeEscaped b = .error .octal := by
+    have hr : Wire.Bytea.toRunes b = [67, 58, 92, 107, 10] := by
+      rw [Wire.Bytea.toRunes_ascii b (by decide)]; rfl
+    have : Wire.Bytea.decodeOctal b = none := by
+      unfold Wire.Bytea.decodeOctal
+      rw [hr]; decide
+    simp [Wire.Bytea.decodeEscaped, b, this]
+  have hx : ¬ (s.textTyped = false ∧ ∃ h, b = 92 :: 120 :: h ∧ Wire.Bytea.hexDecode h = none) := by
+    rintro ⟨_, h, hb, _⟩
+    simp [b] at hb
+  have he : b ≠ [] ∧ ¬ (s.textTyped = false ∧ b = [92, 120]) := ⟨by decide, by decide⟩
+  refine ⟨hx, he, hoct, ?_, ?_⟩
+  · rw [decodeLit, pgDecodeSval_eq fact_decodeEscaped_returns, hoct]
+    rfl
+  · intro c kvW kvR rnd
+    obtain ⟨raw, h1, h2, _⟩ := write_never_plain c kvW kvR s b rnd hx he
+    exact ⟨raw, h1, h2⟩
+
+/-- the coder's only error: `\xZZ` in a column without text type – and the statement that carries it next to
+another protected literal is forwarded as received (`fail_open_statement`), here on the statement level with the
+real transformer: the first protected cell fails, nothing is rewritten. -/
+example :
+    let t : Table := { name := "t", columns := ["id", "a", "b"], encrypted := [("a", { kind := .block }), ("b", { kind := .block, dtype := .str })] }
+    let st : Stmt := .insert { table := "t", cols := [], rows := [[.num [49], .lit [92, 120, 90, 90], .lit [83, 69, 67, 82, 69, 84]]] }
+    decodeLit { kind := .block } [92, 120, 90, 90] = none ∧
+    forwardStmt toyOps ⟨none, none, some [1, 2, 3], none⟩ [t] st [] = st := by
+  intro t st
+  have h : decodeLit { kind := .block } [92, 120, 90, 90] = none := by
+    rw [decodeLit, pgDecodeSval_eq fact_decodeEscaped_returns]
+    decide
+  refine ⟨h, ?_⟩
+  simp [forwardStmt, xfStmt, xfInsertStmt, xfInsert, Schema.table, t, st, insertColumns, xfRows, xfRow, Table.setting, encCell, h]
+
+/-- `sql_prepare_pairs` on the run of the seeded change C04-6: `PREPARE q AS 1; EXECUTE q; DEALLOCATE q;
+PREPARE q AS 2; EXECUTE q` – same query text `EXECUTE q` twice, nothing with rows in between: the first row is
+processed with statement 1, the second with statement 2; then `DEALLOCATE ALL`, `PREPARE q AS 3`, `EXECUTE q`
+pipelined with a plain statement. -/
+example :
+    (sjrun ({} : SJoint Nat)
+      [.send (.query (.prepare "q" 1)), .send .sync, .done, .ready,
+       .send (.query (.execute "q")), .send .sync, .row, .done, .ready,
+       .send (.query (.deallocate "q")), .send .sync, .done, .ready,
+       .send (.query (.prepare "q" 2)), .send .sync, .done, .ready,
+       .send (.query (.execute "q")), .send .sync, .row, .row, .done, .ready,
+       .send (.query .deallocateAll), .send .sync, .done, .ready,
+       .send (.query (.prepare "q" 3)), .send .sync,
+       .send (.query (.execute "q")), .send .sync, .send (.query (.plain 7)), .send .sync,
+       .done, .ready, .row, .done, .ready, .row, .done, .ready]).map (·.2) =
+      some [(1, .stmt 1), (2, .stmt 2), (2, .stmt 2), (3, .stmt 3), (7, .stmt 7)] := by decide
+
+/-- the client rule of `sjstep` is a restriction: re-defining a name behind an unanswered EXECUTE is not a run -/
+example :
+    sjrun ({} : SJoint Nat)
+      [.send (.query (.prepare "q" 1)), .send .sync, .done, .ready,
+       .send (.query (.execute "q")), .send .sync, .send (.query (.deallocate "q"))] = none := by decide
+
+/-- the same session on the proxy's own state machine (`sclStep`, the registry with portals and unique ids): the
+DataRow of the second `EXECUTE q` is resolved to statement 2, and `PREPARE` of a bound name does not overwrite. -/
+example :
+    let run (evs : List (SClEv Nat Nat)) := evs.foldl (fun st ev => match sclStep st ev with | some (st', _) => st' | none => st) ({} : SState Nat Nat)
+    let st := run [.query (.prepare "q" 1) false, .query (.execute "q") false, .query (.deallocate "q") false,
+                   .query (.prepare "q" 2) false, .query (.execute "q") false]
+    rowResolve st.reg (st.pending.drop 8) = .stmt 2 ∧
+    (run [.query (.prepare "q" 1) false, .query (.prepare "q" 2) false]).reg.view "q" = some 1 := by decide
+
 
 /-- `read_restores` / `write_never_plain` with concrete keys, the hash-based toy instance of the crypto
 operations (which satisfies `SealLaws` and `SealLen`), an AcraBlock column and the literal `'\x0909'`. -/
@@ -594,7 +904,7 @@ example :
     ⟨hs, [1,2,3], [[4,5]], [[1,2,9]], hkid, rfl, rfl, hkpre, hek, by rw [hpl']; decide⟩
   have hdl : decodeLit s [92, 120, 48, 57, 48, 57] = some [9, 9] := by decide
   refine ⟨p, ?_, hne, ?_⟩
-  · have := write_never_plain toyOps kvW kvR s _ [9,9] _ p hdl (by decide) hH hnm hnr hp hne
+  · have := write_never_plain_value toyOps kvW kvR s _ [9,9] _ p hdl (by decide) hH hnm hnr hp hne
     rw [this, write_never_plain_hex s p (by decide)]
     rfl
   · exact (read_restores toyOps kvW kvR s .text [9,9] _ p (by decide) hH hnm hnr hp (fun h => hne h.symm) (Or.inl rfl)).2
